@@ -2,11 +2,11 @@
     Statements only; proofs in Proofs/FanProofs.v (zip, merge) and Proofs/LinkProofs.v
     (broadcast, split: the producer's `End` towards one or several downstream blocks).
     `route` (first matching predicate, unmatched dropped) is a per-element choice made by
-    `RoutingEnd` with the same batching/flush structure as `End`; it is covered by the
-    whole-pipeline correspondence of C01 and by the wiring theorems of C19 (not modelled as
-    a separate machine: stated here so that the gap is visible). *)
+    `RoutingEnd` with the same batching/flush structure as `End`: modelled in Model/Route.v
+    (one batcher per route, clock as input), proofs in Proofs/RouteProofs.v, recorded-run
+    correspondence in Corr/RouteCorr.v. *)
 From Noir Require Import Base.Elem Model.BinaryStart Model.Fan Model.End Proofs.StartSpec Proofs.JoinSpec
-  Proofs.FanProofs Proofs.LinkProofs.
+  Proofs.FanProofs Proofs.LinkProofs Proofs.RouteProofs Model.Route.
 From Coq Require Import NArith.
 Open Scope nat_scope.
 
@@ -47,6 +47,53 @@ Theorem C09_split_branch_sequence : forall {A} (clock : nat -> N) (t0 : N) (s : 
   = map (fun x => fst (fst x)) (filter (addressed s blocks b r) l) ++ [Terminate].
 Proof. exact @end_link_sequence. Qed.
 
+(** route: every route's receiver gets exactly the elements addressed to it ([routed_to]),
+    in order, then the Terminate — for every batch mode, every clock and every list of
+    predicates. *)
+Theorem C09_route_sequence : forall {A} (clock : nat -> N) (t0 : N) (m : batch_mode)
+    (preds : list (A -> bool)) (l : list (elem A)) (i : nat),
+  i < length preds ->
+  (forall e, In e l -> e <> Terminate) ->
+  match m with BFixed n => 1 <= n | BAdaptive n _ => 1 <= n | BSingle => True end ->
+  route_received (run (route_machine clock t0 m preds) (l ++ [Terminate])) i
+  = filter (routed_to preds i) l ++ [Terminate].
+Proof. exact @route_sequence. Qed.
+
+(** route: when a round ends (FlushAndRestart) everything of the round, and the
+    FlushAndRestart itself, has been sent to every route; after a FlushBatch everything
+    pulled so far has been sent (the FlushBatch is not forwarded). *)
+Theorem C09_route_round_flushed : forall {A} (clock : nat -> N) (t0 : N) (m : batch_mode)
+    (preds : list (A -> bool)) (l : list (elem A)) (i : nat),
+  i < length preds ->
+  (forall e, In e l -> e <> Terminate) ->
+  match m with BFixed n => 1 <= n | BAdaptive n _ => 1 <= n | BSingle => True end ->
+  route_received (run (route_machine clock t0 m preds) (l ++ [FAR])) i
+    = filter (routed_to preds i) l ++ [FAR] /\
+  route_received (run (route_machine clock t0 m preds) (l ++ [FlushBatch])) i
+    = filter (routed_to preds i) l.
+Proof. exact @route_round_flushed. Qed.
+
+(** route: a data element is addressed to route i iff i is the FIRST route whose predicate
+    holds for its payload; to no route (dropped) iff no predicate holds; never to two. *)
+Theorem C09_route_first_match_only : forall {A} (preds : list (A -> bool)) (e : elem A) (v : A),
+  payload e = Some v ->
+  (forall i, routed_to preds i e = true <-> first_match preds v = Some i) /\
+  (forall i, first_match preds v = Some i <->
+     (i < length preds /\ nth i preds (fun _ => false) v = true /\
+      forall j, j < i -> nth j preds (fun _ => false) v = false)) /\
+  ((forall i, routed_to preds i e = false) <->
+     (forall j, j < length preds -> nth j preds (fun _ => false) v = false)) /\
+  (forall i j, routed_to preds i e = true -> routed_to preds j e = true -> i = j).
+Proof. exact @route_first_match_only. Qed.
+
+(** route: Watermark / FlushAndRestart / Terminate go to every route, FlushBatch to none *)
+Theorem C09_route_control_all : forall {A} (preds : list (A -> bool)) (i : nat),
+  (forall t, routed_to preds i (Wm t) = true) /\
+  routed_to preds i FAR = true /\
+  routed_to preds i Terminate = true /\
+  routed_to preds i FlushBatch = false.
+Proof. exact @route_control_all. Qed.
+
 Example C09_zip_example :
   run zip_machine [Item (BL 1); Item (BL 2); Item (BR 10); Item BREnd; Item (BL 3); Item BLEnd; FAR]
   = [Item (1, 10); @FAR (nat * nat)].
@@ -55,3 +102,7 @@ Proof. vm_compute. reflexivity. Qed.
 Print Assumptions C09_zip_pairs.
 Print Assumptions C09_merge_union.
 Print Assumptions C09_split_branch_sequence.
+Print Assumptions C09_route_sequence.
+Print Assumptions C09_route_round_flushed.
+Print Assumptions C09_route_first_match_only.
+Print Assumptions C09_route_control_all.
